@@ -157,9 +157,8 @@ def main():
                 e = ev[p["reject"] - 1]
                 begin = next(x for x in reversed(ev[: p["reject"]]) if x["op"] == "begin")
                 alns = [x for x in ev if x["op"] == "aln" and x["tid"] == begin["tid"]]
-                feats = sorted({f for a in alns for f in a["flags"] if f in ("dup", "qcfail", "supp")} | ({"lowmapq"} if any(a["mapq"] < max(begin["fc"]["minq"], 1) for a in alns) else set()))
-                key = {"site": "find_snvs.write_vcf_block", "clause": p["clause"], "op": e["op"],
-                       "filtered_reads_present": "+".join(feats) or "none"}
+                key = {"site": "find_snvs.write_vcf_block->bam_region_depths" if e["op"] == "depth" else "find_snvs.write_vcf_block",
+                       "clause": p["clause"], "op": e["op"]}
                 k = json.dumps(key, sort_keys=True)
                 tseen[k] = tseen.get(k, 0) + 1
                 if tseen[k] <= 3:
